@@ -15,14 +15,14 @@ package dkgprops
 
 import (
 	"crypto/sha256"
-	"encoding/binary"
-	tmproto "github.com/tendermint/tendermint/proto/tendermint/types"
-	ethcrypto "github.com/ethereum/go-ethereum/crypto"
-	"github.com/ethereum/go-ethereum/crypto/ecies"
 	"encoding/base64"
+	"encoding/binary"
 	"encoding/json"
 	"flag"
 	"fmt"
+	ethcrypto "github.com/ethereum/go-ethereum/crypto"
+	"github.com/ethereum/go-ethereum/crypto/ecies"
+	tmproto "github.com/tendermint/tendermint/proto/tendermint/types"
 	"hash/fnv"
 	"os"
 	"path/filepath"
@@ -30,7 +30,9 @@ import (
 	"strconv"
 	"strings"
 	"sync"
+	"sync/atomic"
 	"testing"
+	"time"
 
 	"pgregory.net/rapid"
 )
@@ -156,9 +158,9 @@ func (r *Recorder) Case(desc string, nontrivial bool, labels ...string) {
 	}
 }
 
-func (r *Recorder) Label(l string)        { r.mu.Lock(); r.labels[l]++; r.mu.Unlock() }
+func (r *Recorder) Label(l string)         { r.mu.Lock(); r.labels[l]++; r.mu.Unlock() }
 func (r *Recorder) LabelN(l string, n int) { r.mu.Lock(); r.labels[l] += int64(n); r.mu.Unlock() }
-func (r *Recorder) Excluded(class string) { r.mu.Lock(); r.excluded[class]++; r.mu.Unlock() }
+func (r *Recorder) Excluded(class string)  { r.mu.Lock(); r.excluded[class]++; r.mu.Unlock() }
 func (r *Recorder) SetExtra(k string, v any) {
 	r.mu.Lock()
 	r.extra[k] = v
@@ -202,8 +204,12 @@ func (r *Recorder) Violation(sig, detail, replay string) {
 	r.violations = append(r.violations, violation{sig, detail, replay})
 	r.mu.Unlock()
 }
-func (r *Recorder) Inconclusive(why string) { r.mu.Lock(); r.inconcl = append(r.inconcl, why); r.mu.Unlock() }
-func (r *Recorder) Exhaustive()             { r.mu.Lock(); r.exhaustive = true; r.mu.Unlock() }
+func (r *Recorder) Inconclusive(why string) {
+	r.mu.Lock()
+	r.inconcl = append(r.inconcl, why)
+	r.mu.Unlock()
+}
+func (r *Recorder) Exhaustive() { r.mu.Lock(); r.exhaustive = true; r.mu.Unlock() }
 
 // SaveReplay writes a JSON case descriptor into the replay directory and
 // returns its path.
@@ -215,6 +221,15 @@ func (r *Recorder) SaveReplay(test, name string, v any) string {
 	b, _ := json.MarshalIndent(map[string]any{"test": test, "note": "deterministic enumeration: re-running the named test reproduces this case", "case": v}, "", " ")
 	_ = os.WriteFile(p, b, 0o644)
 	return p
+}
+
+// budgetNote adds, when the wall-clock budget of the thorough tier ended the exploration early, how many
+// generated cases were left unexecuted.
+func budgetNote(a []string) []string {
+	if n := budgetSkipped.Load(); n > 0 {
+		return append(append([]string{}, a...), fmt.Sprintf("wall-clock budget of the tier reached: %d further generated cases were not executed (not counted as evaluations)", n))
+	}
+	return a
 }
 
 func (r *Recorder) flushData() map[string]any {
@@ -232,7 +247,7 @@ func (r *Recorder) flushData() map[string]any {
 	sort.Strings(known)
 	samples := append(append([]any{}, r.ntSamples...), r.samples...)
 	return map[string]any{
-		"property": r.Property, "rule": r.Rule, "assumptions": r.Assumptions,
+		"property": r.Property, "rule": r.Rule, "assumptions": budgetNote(r.Assumptions),
 		"evaluations": r.evals, "nontrivial_hashes": hs, "labels": r.labels,
 		"samples": samples, "excluded": r.excluded, "known_findings": known,
 		"violations": r.violations, "inconclusive": r.inconcl, "extra": r.extra,
@@ -343,8 +358,53 @@ func runRapid(t *testing.T, checks int, prop func(*rapid.T)) {
 		setFlag("rapid.seed", strconv.FormatUint(s, 10))
 	}
 	setFlag("rapid.checks", strconv.Itoa(checks))
-	rapid.Check(t, prop)
+	if softDeadline.IsZero() {
+		rapid.Check(t, prop)
+		return
+	}
+	// thorough tier: the driver passes a wall-clock budget (VERIF_SOFT_DEADLINE, unix seconds). Once it has
+	// passed, the remaining generated cases are not executed (counted in budgetSkipped and reported in the
+	// evidence); the budget only ends the exploration, it never decides a case. After a failure has been seen
+	// nothing is skipped, so that shrinking and the final replay are not disturbed.
+	// every runRapid call also gets its own share (VERIF_SOFT_PER_TEST seconds), so that the tests of a
+	// package that run first do not use up the whole budget
+	local := softDeadline
+	if softPerTest > 0 {
+		if l := time.Now().Add(softPerTest); l.Before(local) {
+			local = l
+		}
+	}
+	rapid.Check(t, func(rt *rapid.T) {
+		if !failedOnce.Load() && time.Now().After(local) {
+			budgetSkipped.Add(1)
+			return
+		}
+		defer func() {
+			if r := recover(); r != nil {
+				failedOnce.Store(true)
+				panic(r)
+			}
+		}()
+		prop(rt)
+	})
 }
+
+var (
+	softDeadline = func() time.Time {
+		if n, err := strconv.ParseInt(os.Getenv("VERIF_SOFT_DEADLINE"), 10, 64); err == nil && n > 0 {
+			return time.Unix(n, 0)
+		}
+		return time.Time{}
+	}()
+	softPerTest = func() time.Duration {
+		if n, err := strconv.ParseFloat(os.Getenv("VERIF_SOFT_PER_TEST"), 64); err == nil && n > 0 {
+			return time.Duration(n * float64(time.Second))
+		}
+		return 0
+	}()
+	budgetSkipped atomic.Int64
+	failedOnce    atomic.Bool
+)
 
 // fatalf is used inside rapid properties: it records nothing (rapid shrinks
 // and the driver collects the fail file) but gives a uniform message.
